@@ -58,7 +58,7 @@ MANIFEST = dict(
               "summaries",
 )
 FLOORS = {"C04.1": 4, "C04.2": 4, "C04.3": 8, "C04.4": 3, "C04.5": 2,
-          "C04.6": 14, "C04.7": 3, "C04.8": 2, "C04.9": 4}
+          "C04.6": 14, "C04.7": 3, "C04.8": 2, "C04.9": 4, "C04.10": 2}
 
 ALIGN = "evo.core.trajectory.PosePath3D.align"
 ORIGIN = "evo.core.trajectory.PosePath3D.align_origin"
@@ -570,6 +570,13 @@ def _umeyama_scale(ctx):
     from ..core import import_rules
     n = import_rules(ctx, "c03", ("C03.4", "C03.3", "C03.7"), "C04.7")
     ctx.require(n >= 3, "C04.7: Umeyama sign-fix instances not found")
+    # the transform align() applies is Umeyama's: it must treat the point
+    # sets it is handed (3 x n, n >= 3 incl. n = 3) as such — centred
+    # covariance and the typed equivariance of (r, t, c) are necessary for
+    # 'never larger than under any other transformation of the class'
+    n = import_rules(ctx, "c03", ("C03.5", "C03.6"), "C04.10")
+    ctx.require(n >= 2, "C04.10: Umeyama covariance / equivariance "
+                "instances not found")
     # "scale-only mode multiplies positions by s and nothing else" / "p ->
     # s*R*p + t" rest on what PosePath3D.scale does in every cache state
     n = import_rules(ctx, "c08", ("C08.6",), "C04.8")
